@@ -16,6 +16,7 @@ VERIF = gen.VERIF
 FINDERS = [
     (r'TextSelection::test(/|_set/)|TextSelectionSet::test|toggle_negate|toggle_all|with_limit|rightmost|leftmost', 'find_rel_pair'),
     (r'TextSelection::(textselection_by_offset|beginaligned_cursor|relative_|absolute_offset)', 'find_relative_offsets'),
+    (r'subselectors__resolve|AnnotationStore::annotate', 'find_annotate_failures'),
     (r'subselectors__', 'find_subselectors'),
     (r'textselection_by_offset|beginaligned_cursor', 'find_offset_accept'),
     (r'LimitIter', 'find_limit_slice'),
